@@ -145,6 +145,59 @@ def check(scn):
     return None
 
 
+def expected_class_probs(labels_window, all_classes, probs):
+    """documented resampling law of LabelProbabilityInjector as class probabilities inside the window: a specified class
+    gets its probability, the unspecified classes share the rest equally; the mass of classes that do not occur in the
+    window is spread uniformly over the rows of the window (so over classes in proportion to their row counts)"""
+    unspecified = [c for c in all_classes if c not in probs]
+    rest = 1.0 - sum(probs.values())
+    p = {c: probs[c] for c in all_classes if c in probs}
+    for c in unspecified:
+        p[c] = rest / len(unspecified)
+    counts = {c: int(np.sum(labels_window == c)) for c in all_classes}
+    present = {c: p[c] for c in all_classes if counts[c] > 0}
+    lost = 1.0 - sum(present.values())
+    total = sum(counts.values())
+    return {c: (present.get(c, 0.0) + lost * counts[c] / total) if total else 0.0 for c in all_classes}
+
+
+def check_frequencies(scn):
+    """class frequencies of the resampled window against the documented law; a class whose probability is exactly 0
+    must never appear (exact), the others within 6 standard deviations over all repetitions"""
+    import menelaus.injection as I
+    seed, reps, probs, as_df, name = scn["seed"], scn["reps"], {float(k): v for k, v in scn["probs"]}, scn["df"], scn["inj"]
+    rng = np.random.RandomState(seed)
+    n, lo, hi = 30, 5, 25
+    cls = np.array([0.0, 1.0, 2.0] * 10)
+    rng.shuffle(cls)
+    a = np.column_stack([rng.randn(n), cls])
+    d = pd.DataFrame(a, columns=["a", "cls"]) if as_df else a
+    all_classes = [0.0, 1.0, 2.0]
+    exp = expected_class_probs(a[lo:hi, 1], all_classes, probs)
+    got = {c: 0 for c in all_classes}
+    for r in range(reps):
+        np.random.seed(seed * 1000 + r)
+        out = getattr(I, name)()(d, lo, hi, "cls" if as_df else 1, dict(probs))
+        w = arr(out)[lo:hi, 1]
+        for c in all_classes:
+            got[c] += int(np.sum(w == c))
+    N = reps * (hi - lo)
+    for c in all_classes:
+        f = got[c] / N
+        if exp[c] == 0.0 and got[c] > 0:
+            return "%s: class %r has requested probability 0 but makes up %.3f of the resampled window (probabilities %r)" % (
+                name, c, f, probs)
+        tol = 6 * math.sqrt(max(exp[c] * (1 - exp[c]), 1e-12) / N) + 1e-9
+        if abs(f - exp[c]) > tol:
+            return "%s: class %r frequency %.4f over %d draws, documented law gives %.4f (+-%.4f) for probabilities %r" % (
+                name, c, f, N, exp[c], tol, probs)
+    return None
+
+
+REPLAY_F = REPLAY.replace("b_C20.check(", "b_C20.check_frequencies(").replace(
+    "injector effect is exactly the documented one", "class frequencies follow the requested probabilities")
+
+
 def run(tier, seed, repo, focus=None):
     quick = tier == "quick"
     n = 8 if quick else 12
@@ -153,7 +206,9 @@ def run(tier, seed, repo, focus=None):
                  "re-used injector instance x several x0 / shift values: type, shape, column labels, cells outside the "
                  "window and other columns unchanged, documented effect inside (swap twice = identity, label swap "
                  "involution, join, shift by factor*(alpha+window mean), random walk from x0 with steps 1/sqrt(steps), "
-                 "resampled rows come from the window); non-trivial = non-empty window" % n, {"n": n})
+                 "resampled rows come from the window); LabelProbabilityInjector class frequencies over %d repetitions of a 20-row "
+                 "window against the documented law (zero-probability classes never appear; others within 6 sigma); "
+                 "non-trivial = non-empty window" % (n, 60 if quick else 300), {"n": n})
     known = load_known()
     names = ["FeatureSwapInjector", "FeatureShiftInjector", "LabelSwapInjector", "LabelJoinInjector", "BrownianNoiseInjector",
              "LabelProbabilityInjector", "LabelDirichletInjector", "FeatureCoverInjector"]
@@ -181,5 +236,17 @@ def run(tier, seed, repo, focus=None):
                         res.count(key=repr(scn), nontrivial=hi > lo, check=name)
                         if msg:
                             res.violation("injector: " + msg, REPLAY % dict(verif=VERIF, scn=scn), known)
+    # resampling law of LabelProbabilityInjector (statistical, with an exact part for zero probabilities)
+    reps = 60 if quick else 300
+    for as_df in (False, True):
+        for probs in ([(0, 0.0), (1, 0.5)], [(0, 0.7)], [(0, 0.2), (1, 0.3), (2, 0.5)], [(1, 1.0)], [(2, 0.0)], []):
+            scn = {"inj": "LabelProbabilityInjector", "df": as_df, "seed": seed, "reps": reps, "probs": probs}
+            try:
+                msg = check_frequencies(scn)
+            except Exception as e:
+                msg = "LabelProbabilityInjector raised %s: %s" % (type(e).__name__, e)
+            res.count(key=repr(scn), nontrivial=True, check="LabelProbabilityInjector frequencies")
+            if msg:
+                res.violation("injector: " + msg, REPLAY_F % dict(verif=VERIF, scn=scn), known)
     res.sample({"check": "FeatureSwapInjector", "scenario": {"df": True, "lo": 2, "hi": 5, "n": n}})
     return res.finish()
